@@ -15,6 +15,9 @@ class Immediate(Operand):
     value: int
 
     def __str__(self):
+        if isinstance(self.value, bool):
+            # `True` is the integer 1: print it as the assembler reads it
+            return str(int(self.value))
         return str(self.value)
 
 
@@ -166,4 +169,5 @@ class Template(Operand):
         assert isinstance(self.name, str)
 
     def __str__(self):
-        return self.name
+        # Same notation as in NetQASM source text
+        return "{" + self.name + "}"
